@@ -102,6 +102,25 @@ func (g *Gen) specType(name string) (types.Type, string) {
 			return types.NewSlice(et), "Slice"
 		}
 	}
+	if strings.HasPrefix(name, "map[") {
+		// map[K]V
+		depth := 0
+		for i, ch := range name {
+			if ch == '[' {
+				depth++
+			} else if ch == ']' {
+				depth--
+				if depth == 0 {
+					kt, _ := g.specType(name[4:i])
+					vt, _ := g.specType(name[i+1:])
+					if kt != nil && vt != nil {
+						return types.NewMap(kt, vt), "Int"
+					}
+					break
+				}
+			}
+		}
+	}
 	if strings.HasPrefix(name, "seq:") {
 		et, es := g.specType(strings.TrimPrefix(name, "seq:"))
 		sort := "(Array Int " + es + ")"
